@@ -67,7 +67,7 @@ def main(ctx):
     mc(ctx, 'c06_sens2', dict(RoleCheck='FALSE'), ['RoleRespected'],
        expect='RoleRespected')
     tab = table(ctx)
-    ctx.require(len(tab) == 2 * 7 * 24 * 2, f'table has {len(tab)} rows')
+    ctx.require(len(tab) == 2 * 9 * 24 * 2, f'table has {len(tab)} rows')
 
     # ---- 2a. real server, malicious raw client ----
     twin = G.run_server_case()
@@ -159,11 +159,21 @@ def main(ctx):
     for strict in (True, False):
         for point in ('after_kexinit', 'before_newkeys'):
             for (cls, vname), (t, body) in sorted(types.items()):
-                if cls in ('NEWKEYS', 'KEXMSG', 'KEXOTHER') or \
+                # after_kexinit: the exchange is running (P1); before_newkeys:
+                # the server has already sent its own NEWKEYS and waits for
+                # ours (P1w) - there a repeated INIT must not run the
+                # exchange again.  NEWKEYS itself is the genuine next message.
+                if cls == 'NEWKEYS' or \
+                        (cls in ('KEXMSG', 'KEXOTHER') and
+                         point == 'after_kexinit') or \
                         (quick and vname != 'wellformed'):
-                    continue            # these belong to the exchange itself
+                    continue
+                # a repeated key exchange message is the peer's own genuine
+                # one sent again (valid for whatever method was negotiated)
+                inj = (t, None) if (cls == 'KEXMSG' and
+                                    vname == 'wellformed') else (t, body)
                 r = G.run_server_case(None, no_strict=not strict,
-                                      cleartext={point: [(t, body)]})
+                                      cleartext={point: [inj]})
                 n += 1
                 ctx.count(('srv-clear', strict, point, cls, vname),
                           nontrivial=True)
@@ -171,13 +181,32 @@ def main(ctx):
                         [x for x in r['seen'] if x != 3] == twin['seen'] and
                         r['log'] == twin['log'])
                 dead = not r['closed'] and not r['seen'] and not r['log']
-                pred = tab.get(('server', 'P1', cls, strict))
-                sig = {'module': 'Gate', 'role': 'server', 'phase': 'P1',
+                mph = 'P1' if point == 'after_kexinit' else 'P1w'
+                pred = tab.get(('server', mph, cls, strict))
+                sig = {'module': 'Gate', 'role': 'server', 'phase': mph,
                        'point': point, 'strict': strict, 'class': cls,
                        'variant': vname}
                 rep = {'kind': 'server-clear', 'strict': strict,
                        'point': point, 'type': t, 'body': body.hex()}
-                if not r['closed'] and not same and not dead:
+                if pred == 'process':
+                    # the message starts something the code supports at this
+                    # point (a KEXINIT once the own NEWKEYS is out): only the
+                    # take-effect rule below applies
+                    if not r['closed'] and not same and not dead:
+                        ctx.violation(sig, f'server, first key exchange '
+                                      f'({point}, strict={strict}): {cls}/'
+                                      f'{vname} (type {t}) took effect: seen='
+                                      f'{r["seen"]} log={r["log"]}',
+                                      replay=rep)
+                elif G.acted(r['emitted'], [t for t in twin['emitted']
+                                            if t not in (1, 3)]):
+                    ctx.violation(dict(sig, clause='ActedOn'),
+                                  f'server, first key exchange ({point}, '
+                                  f'strict={strict}): {cls}/{vname} (type {t}) '
+                                  f'was acted upon: the server emitted '
+                                  f'{r["emitted"]} (untampered run: '
+                                  f'{twin["emitted"]})', replay=rep)
+                elif not r['closed'] and not same and not dead:
                     ctx.violation(sig, f'server, first key exchange ({point}, '
                                   f'strict={strict}): {cls}/{vname} (type {t}) '
                                   f'took effect: seen={r["seen"]} '
